@@ -40,6 +40,7 @@ type Node struct {
 	outputReader *os.File
 	scriptFile   *os.File
 	done         bool
+	executing    bool
 }
 
 type NodeData struct {
@@ -143,7 +144,9 @@ func (n *Node) Execute(ctx context.Context) error {
 			_, _ = io.Copy(&buf, r)
 		}(n.outputReader)
 	}
+	n.setExecuting(true)
 	n.SetError(cmd.Run())
+	n.setExecuting(false)
 	if captured != nil {
 		util.LogErr("close pipe writer", n.outputWriter.Close())
 		<-captured
@@ -157,6 +160,20 @@ func (n *Node) Execute(ctx context.Context) error {
 	}
 
 	return n.data.State.Error
+}
+
+func (n *Node) setExecuting(v bool) {
+	n.mu.Lock()
+	defer n.mu.Unlock()
+	n.executing = v
+}
+
+// isExecuting reports whether the node's command is running right now,
+// whatever the node's label says.
+func (n *Node) isExecuting() bool {
+	n.mu.RLock()
+	defer n.mu.RUnlock()
+	return n.executing
 }
 
 func (n *Node) finish() {
@@ -267,7 +284,10 @@ func (n *Node) signal(sig os.Signal, allowOverride bool) {
 	n.mu.Lock()
 	defer n.mu.Unlock()
 	status := n.data.State.Status
-	if status == NodeStatusRunning && n.cmd != nil {
+	// A node that has been signalled is labelled canceled at once, but its
+	// command may still be running (it may ignore the signal): later
+	// signals, in particular the final SIGKILL, must still reach it.
+	if (status == NodeStatusRunning || (status == NodeStatusCancel && n.executing)) && n.cmd != nil {
 		sigsig := sig
 		if allowOverride && n.data.Step.SignalOnStop != "" {
 			sigsig = unix.SignalNum(n.data.Step.SignalOnStop)
